@@ -84,6 +84,21 @@ def step (line : String) : String :=
        let U : UrlCodec := { urlencode := fun _ => e, parseQsl := fun _ => [], quote := id, unquote := id }
        showStr (encodeForm U [] sim)
      | _, _ => "bad-op")
+  | ["tparts", sc, path] =>
+    (match strField sc, strField path with
+     | some a, some b =>
+       let t := targetParts a b
+       showStr t.path ++ " " ++ showStr t.params ++ " " ++ showStr t.query ++ " " ++ showStr t.fragment
+     | _, _ => "bad-op")
+  | ["tset", sc, path, which, comps, enc] =>
+    -- comps: the already quoted components (`,`-separated, `none` = no component); enc: the already urlencoded query
+    (match strField sc, strField path, (if comps = "none" then some [] else allSome ((comps.splitOn ",").map strField)), strField enc with
+     | some a, some b, some qs, some e =>
+       let U : UrlCodec := { urlencode := fun _ => e, parseQsl := fun _ => [], quote := id, unquote := id }
+       if which = "path" then showStr (setPathComponents U a b qs)
+       else if which = "query" then showStr (setQueryOf U a b [])
+       else "bad-op"
+     | _, _, _, _ => "bad-op")
   | ["mpdec", b, body] =>
     (match hexOr b, hexOr body with
      | some b, some body =>
